@@ -123,6 +123,12 @@ type htm struct{ s string }
 
 func (h htm) HTML() template.HTML { return template.HTML("<i>" + h.s + "</i>") }
 
+// Car has an ID: pathFor(car) = /cars/7
+type Car struct {
+	ID   int
+	Name string
+}
+
 type Inner struct {
 	Label string
 	Depth int
@@ -170,6 +176,7 @@ func (rt *Runtime) plainData() map[string]interface{} {
 	d := map[string]interface{}{
 		"rx":   []string{"^a", "c!$", "^x|y$"}[v%3],
 		"f64":  1.5,
+		"car":  Car{ID: 7 + v, Name: "beetle"},
 		"many": []int{0, 1, 2, 3, 4, 5, 6, 7, 8, 9, 10, 11, 12, 13, 14, 15, 16, 17, 18, 19},
 		"n1":   3 + v, "n2": 7, "s1": "ab<c" + strings.Repeat("!", v), "s2": "x y", "b1": true, "b0": false,
 		"xs":  []int{4 + v, 5, 6},
